@@ -24,7 +24,8 @@ RULE_TEXT = ("C03-V sibling agreement of the conversion impls in value.rs, arm b
              "all before the handler call whose operands they are. C03-N no Result of push/try_into/from_str_radix/parse "
              "is discarded; the argument vector's overflow is reported."
              " C03-PR: the contracts of the parser combinators the skeleton builds on are read from their bodies - satisfy (accept first byte iff pred / soft error / Incomplete on empty), take_while (never fails; longest prefix, position() form or counting-loop form), optional (never fails; Some(value) or input untouched), tag(b) = satisfy(== b). C03-C12I: the Incomplete discipline of the data recognisers (rule C12-I)."
-             " C03-K: the buffer discipline of process (rules K1-K7 of C07) - the bytes of a message reach the parser as sent.")
+             " C03-K: the buffer discipline of process (rules K1-K7 of C07) - the bytes of a message reach the parser as sent."
+             " C03-C06R: every parse-error path of run reports once and resumes behind the message terminator, every execution-error path reports execute's error once (rule C06-R) - exactly one error per faulty unit.")
 
 V = "microscpi::value::Value::"
 E = "microscpi::error::Error::"
@@ -51,6 +52,10 @@ def run(ck):
     # discipline of process (K-rules of C07)
     import c07
     c07.rule_K(ck, lib, "C03-K")
+    # "exactly one error is reported": every parse-error path of run reports once and resumes behind the message
+    # terminator (not inside the faulty unit's literals), every execution-error path reports execute's error once (C06-R)
+    import c06
+    c06.rule_R(ck, lib, "C03-C06R")
 
 
 def impl_fn(lib, self_ty, target):
